@@ -617,6 +617,64 @@ func Tagged(w *load.World, c *core.Collector) {
 			}
 		}
 	}
+	// helpers that hand out a payload pointer, or nil when the owner is of another kind: every use of
+	// such a result as the base of a field access is behind a nil test of that result
+	nh := 0
+	for _, f := range w.Fns {
+		if !load.InMod(f) {
+			continue
+		}
+		for _, b := range f.Blocks {
+			for _, in := range b.Instrs {
+				call, ok := in.(*ssa.Call)
+				if !ok {
+					continue
+				}
+				g := call.Call.StaticCallee()
+				if g == nil || !ssax.InModule(g) || g.Signature.Results().Len() != 1 {
+					continue
+				}
+				pt, isPtr := g.Signature.Results().At(0).Type().Underlying().(*types.Pointer)
+				if !isPtr || !strings.HasPrefix(ssax.TypeName(pt), "models.") {
+					continue
+				}
+				mayNil := false
+				for _, gb := range g.Blocks {
+					if r, ok := gb.Instrs[len(gb.Instrs)-1].(*ssa.Return); ok && ssax.IsNilConst(r.Results[0]) {
+						mayNil = true
+					}
+				}
+				if !mayNil {
+					continue
+				}
+				nonNil, _ := ssax.NilTests(f, call)
+				for _, r := range *call.Referrers() {
+					var ub *ssa.BasicBlock
+					switch x := r.(type) {
+					case *ssa.FieldAddr:
+						if x.X == ssa.Value(call) {
+							ub = x.Block()
+						}
+					case *ssa.UnOp:
+						if x.Op == token.MUL && x.X == ssa.Value(call) {
+							ub = x.Block()
+						}
+					}
+					if ub == nil {
+						continue
+					}
+					nh++
+					key := fmt.Sprintf("nullable-result:%s@%s", load.FnKey(g), load.FnKey(f))
+					if onlyViaAny(nonNil, ub) {
+						c.Add("TAGGED", key, core.OK, w.At(r), "", props...)
+					} else {
+						c.Add("TAGGED", key, core.Violation, w.At(r), "the result of "+load.FnKey(g)+" is nil for an owner of another kind, and it is dereferenced here without a nil test", props...)
+					}
+				}
+			}
+		}
+	}
+	c.Count("nullable_payload_results_dereferenced", nh)
 	c.Count("tagged_union_dereferences", n)
 	if n < 60 {
 		c.Add("TAGGED", "anchor:derefs", core.Undecided, "", fmt.Sprintf("found %d payload dereferences, expected at least 60", n), props...)
